@@ -37,7 +37,7 @@ def obligations(tier):
     ]
     for q in range(3):
         obls.append(CH("navigation_q%d" % q, H, "navigation", t, mode="E1s", functions=F[3:8], env={"VERIF_PART": str(q)},
-                       bounds="queried node %d; 2 relationships over 3 nodes (18 x 9 graphs) x 3 type filters x 4 flag settings x 2 member splits x 4 access paths" % q))
+                       bounds="queried node %d; 2 relationships over 3 nodes (18 x 9 graphs) x 3 type filters x 4 flag settings x 2 member splits x 4 access paths; then the same with a filter attached to a memory source, a composite and a composite of a composite that hides one relationship" % q))
     from props import C11
     obls += [o for o in C11.obligations(tier) if o.name == "composite_latest_by_instant"]      # shared: the composite's choice of the latest answer
     return obls
